@@ -20,3 +20,10 @@ def run(rep: Report, repo: Repo, tier: str) -> None:
     writer_rules.rule_paragraph(rep, repo, "C07-R5p")
     from . import bindings
     bindings.rule_module_doc_verbatim(rep, repo, "C07-R5m")
+    render.rule_doc_starts_block(rep, repo, "C07-R6")
+    # members are nested in their own class's directive: attachment goes to the innermost open class
+    from . import protocol
+    protocol.rule_classstack(rep, repo, "C07-R7")
+    # values reach the text as written: CMinx introduces no line break of its own into a field or argument
+    writer_rules.rule_values_verbatim(rep, repo, "C07-R8")
+    render.rule_no_line_breaks_introduced(rep, repo, "C07-R9")
